@@ -1544,7 +1544,14 @@ pub fn value_stage(base_seed: u64, stage: &Stage, workers: usize) -> Result<(Vec
     if n == 0 {
         return Ok((Vec::new(), 0, counts, t0.elapsed().as_secs_f64()));
     }
-    let (answers, dropped) = run_value_crate(stage.name, &modules)?;
+    // one crate per 250 modules: rustc's time and memory stay bounded in the thorough tier
+    let mut answers: BTreeMap<(u64, usize), ProbeAnswer> = BTreeMap::new();
+    let mut dropped: BTreeMap<u64, (String, String)> = BTreeMap::new();
+    for (ci, chunk) in modules.chunks(250).enumerate() {
+        let (a, d) = run_value_crate(&format!("{}-{ci}", stage.name), chunk)?;
+        answers.extend(a);
+        dropped.extend(d);
+    }
     *counts.entry("value_stage.modules_dropped_rustc_error".into()).or_insert(0) += dropped.len() as u64;
     let mut found = Vec::new();
     // ----- a module that does not compile: is it the defaults? -----
